@@ -63,6 +63,46 @@ def values_for(doc):
     return vals
 
 
+def distinct_object_schemas(materialized):
+    """Independent count of the distinct object schemas of the dereferenced source document: an object schema is identified
+    by its class name (formatted title, else automatic title) and its content with all naming annotations removed."""
+    from statham.schema.parser import _title_format
+
+    def strip(node):
+        if isinstance(node, dict):
+            return {k: strip(v) for k, v in node.items() if k not in ("title", "_x_autotitle", "definitions")}
+        if isinstance(node, list):
+            return [strip(v) for v in node]
+        return node
+
+    found = set()
+    seen_ids = set()
+
+    def walk(node):
+        if isinstance(node, dict):
+            if id(node) in seen_ids:
+                return
+            seen_ids.add(id(node))
+            t = node.get("type")
+            if t == "object" or (isinstance(t, list) and "object" in t):
+                name = _title_format(node.get("title", "")) if isinstance(node.get("title"), str) else ""
+                name = name or _title_format(node.get("_x_autotitle", ""))
+                # the parser composes anyOf/oneOf/allOf/not (and the sibling default) around the object class proper
+                composed = any(k in node for k in ("anyOf", "oneOf", "allOf", "not"))
+                own = {k: v for k, v in node.items() if k not in (("anyOf", "oneOf", "allOf", "not", "default") if composed else ())}
+                found.add((name, json.dumps(strip(own), sort_keys=True, default=str)))
+            for k, v in node.items():
+                if k in ("const", "enum", "default", "_x_autotitle", "title"):
+                    continue
+                walk(v)
+        elif isinstance(node, list):
+            for v in node:
+                walk(v)
+
+    walk(materialized)
+    return found
+
+
 def check_document(st, label, doc, extra, rank=0):
     case = {"document": label, "doc": doc, "extra": extra}
     st.add("states")
@@ -99,6 +139,9 @@ def check_document(st, label, doc, extra, rank=0):
     if set(generated) != set(parsed_classes):
         st.violation("class-set-differs", "%s: module defines %s, the parsed document has object classes %s" % (label, sorted(generated), sorted(parsed_classes)), case, rank)
         return
+    expected = distinct_object_schemas(docs.load(doc, extra))
+    if len(expected) != len(generated):
+        st.violation("class-count-differs-from-distinct-object-schemas", "%s: the source document has %d distinct object schemas %s, the module defines %d classes %s" % (label, len(expected), sorted(n for n, _ in expected), len(generated), sorted(generated)), case, rank)
     # one class statement per class
     for name in generated:
         n = text.count("class %s(" % name)
